@@ -1,0 +1,25 @@
+//go:build verif
+
+package submission
+
+import (
+	"crypto/sha256"
+	"encoding/hex"
+
+	ct "github.com/google/certificate-transparency-go"
+	"github.com/google/certificate-transparency-go/verifhook"
+)
+
+// simYield parks the calling group-race goroutine in the simulator (if one is
+// installed) right before it touches the shared submission state. The leaf
+// certificate's hash tells concurrent GetSCTs calls apart.
+func simYield(point, group, logURL string, chain []ct.ASN1Cert) {
+	if f := verifhook.Yield; f != nil {
+		id := ""
+		if len(chain) > 0 {
+			h := sha256.Sum256(chain[0].Data)
+			id = hex.EncodeToString(h[:4])
+		}
+		f(point, group, logURL, id)
+	}
+}
